@@ -264,6 +264,13 @@ impl<'a> Evaluator<'a> {
             }
             ExpressionFactor::IdentifierValue { path, modifier } => {
                 let symbol_data = self.lookup_symbol(path, track_usage);
+                if let Some(SymbolData::MacroDefinition(_)) = symbol_data {
+                    // Not a value, in this pass or any later one: don't drop the statement in silence
+                    return self.error(
+                        path.span,
+                        format!("'{}' is a macro and cannot be used as a value", &path.data),
+                    );
+                }
 
                 Ok(symbol_data.and_then(|data| match data {
                     SymbolData::MacroDefinition(_) => None,
